@@ -35,6 +35,26 @@ def run(ctx):
     # binding self-test: a trace with one hook line removed / one field corrupted must be rejected
     selftest(ctx, dump)
     rep.absorb(ctx.vh(["syncgate"], timeout=900))
+    # the repository's own suite, run with the verif tag and the default recorder: its pool traffic is a trace too
+    suite = os.path.join(ctx.scratch, "suite-trace.ndjson")
+    env = vf.goenv()
+    env.update({"VERIF_TRACE_FILE": suite, "GOGC": "off"})
+    import subprocess
+    p = subprocess.run(["timeout", "600", "go", "test", "-tags", "verif", "-vet=off", "-count=1", "./..."], cwd=vf.REPO, env=env,
+                       stdout=subprocess.PIPE, stderr=subprocess.STDOUT, text=True)
+    if not os.path.exists(suite) or os.path.getsize(suite) == 0:
+        raise vf.Infra("the pinned suite produced no trace with the verif tag: %s" % p.stdout[-600:])
+    sl = sum(1 for _ in open(suite))
+    ts = ctx.tlc("Trace_SyncPath", "Trace_SyncPath", workers=1, timeout=1200, env={"VERIF_TRACE": suite}, expect_violation=True)
+    if ts.violation:
+        bad = ts.emitted[0] if ts.emitted else {}
+        rep.violations.append({"key": "suite-trace-rejected:" + str(bad.get("rule", "?")).replace(" ", "-"),
+                               "what": "TLC rejected the trace of the repository's own test suite at line %s: %s" % (
+                                   bad.get("line"), bad.get("rule")), "case": bad})
+    elif ts.distinct != sl + 1:
+        raise vf.Infra("suite trace: consumed %d of %d lines" % (ts.distinct - 1, sl))
+    rep.traces += 1
+    rep.extra["suite_trace_events_validated"] = sl
     rep.extra["trace_events_validated"] = nlines
     rep.exhaustive = False
     rep.rule = ("SyncPath.tla model-checked (3 goroutines, 2 buffers, 2-chunk sink, over-cap buffers; the as-built "
@@ -44,7 +64,8 @@ def run(ctx):
                 "events produce alone (each Write call = one whole line), and %d trace events (buffer get/put, event "
                 "get/put/use, sink write start/end with backing-array identity, ordered by a sequence number drawn inside the "
                 "hooks) are validated by TLC against Trace_SyncPath.tla; 100 gated reproductions of the model's "
-                "counterexample schedule.  Non-trivial = recorded runs + gated rounds." % (
+                "counterexample schedule; the pool trace of the repository's own test suite (built with the verif tag, default "
+                "recorder) is validated against the same trace specification.  Non-trivial = recorded runs + gated rounds." % (
                     "120" if thorough else "30", nlines))
     rep.assumptions = ["TLC/SANY", "Go toolchain", "verif hooks on the buffer/event pools", "GC disabled while recording so that addresses identify objects",
                        "file and rolling sinks are checked by content only (their write(2) is not instrumented)"]
